@@ -32,6 +32,13 @@ func (c *ColBool) DecodeColumn(r *Reader, rows int) error {
 	if err := r.ReadFull(dst); err != nil {
 		return errors.Wrap(err, "read full")
 	}
+	// A bool backed by a byte other than 0 or 1 is not a valid Go value;
+	// reject it like Reader.Bool and the purego decoder do.
+	for i, v := range dst[len(dst)-rows:] {
+		if v != boolTrue && v != boolFalse {
+			return errors.Errorf("[%d]: bad value %d for Bool", i, v)
+		}
+	}
 	return nil
 }
 
